@@ -40,7 +40,9 @@ Base(k) ==
    busy |-> FALSE,           \* the receiver's parent channel has an update pending (see above)
    fa |-> "equal",           \* funding agreement: "equal" | "shifted" (same sum, other distribution)
    parents |-> "ok",         \* virtual: "ok" | "none" | "one" | "three" | "unknown"
-   imaps |-> "ok"]           \* virtual: "ok" | "one" | "three" | "entry2" | "long"
+   imaps |-> "ok"]           \* virtual: "ok" | "one" | "three" | "entry2" | "long" | "dup0" / "dup1" (the receiver's map is not
+                             \*   injective: both end points stand at index 0 / 1 of the parent - no assignment of the two end
+                             \*   points to the two participants of the parent is described by it)
 
 (* the property's clauses *)
 Generic(m) == /\ m.cols >= 2
@@ -83,7 +85,7 @@ Mutants(k) ==
   \cup (IF k = "virtual" THEN { <<"funds", [b EXCEPT !.funds = "exceedmapped"]>> } ELSE {})
   \cup (IF k = "virtual"
         THEN { <<"parents", [b EXCEPT !.parents = x]>> : x \in {"none", "one", "three", "unknown"} }
-             \cup { <<"imaps", [b EXCEPT !.imaps = x]>> : x \in {"one", "three", "entry2", "long"} } ELSE {})
+             \cup { <<"imaps", [b EXCEPT !.imaps = x]>> : x \in {"one", "three", "entry2", "long", "dup0", "dup1"} } ELSE {})
 
 Verdict(m, hasParent) == IF WellFormed(m, hasParent) THEN "handler" ELSE "dropped"
 (* a ledger proposal may carry a funding agreement that differs from the initial balances (same sums) *)
